@@ -178,3 +178,16 @@ reg("C20",
                      "the two-sided tie bound sum_{g'>g} f <= out <= sum_{g'>=g, c'!=c} f is checked by the O(n^2) oracle; the theorems give 0 <= out <= total - f c, "
                      "monotonicity in rank and in g"],
     assumptions=["sigma is a sorting permutation returned by argsort (Nodup, g o sigma non-increasing)", "f >= 0", "searchsorted on the non-decreasing cumulative sums"])
+
+KM_BRIDGES = T("Proofs.Bridge.KMK", "BLDFM.Bridge", ["km_helpers_bridge", "km_params_bridge", "km_cell_bridge", "km_z0_bridge"], "bridge")
+
+reg("C19",
+    T("Proofs.C19", "BLDFM.C19", ["km_cell_eq_published", "km_nonneg", "km_zero_downwind", "km_symmetric_y", "km_negative_U_empty",
+                                  "km_rotation", "km_no_rotation", "km_rotation_cardinals", "km_params", "z0_inverts_loglaw",
+                                  "psi_eq_km_psiM", "phi_eq_km_phiC"]) + KM_BRIDGES,
+    kernel_groups=["KMK"],
+    partial_clauses=["the sum tends to the regularised incomplete-gamma mass as the grid is refined: numeric oracle only (scipy.special.gammaincc); Mathlib has no incomplete gamma function",
+                     "dtype-independence (int / float alike): static extract of the helper allocations + oracle with int, numpy int64 and float32 heights",
+                     "z0 smoothing invariant under whole-degree rotations (1-degree bins): oracle; non-integer rotations move observations across bins and are outside the clause"],
+    assumptions=["x > 0, U > 0, kappa > 0, r > 0, sigma_v > 0, Gamma(mu) > 0, Gamma(1/r) > 0 for the closed form"])
+REGISTRY["C09"]["theorems"] += T("Proofs.C19", "BLDFM.C19", ["psi_eq_km_psiM", "phi_eq_km_phiC"])
